@@ -177,7 +177,13 @@ func VerifC04Round1Step() {
 
 	// ---- oracle
 	want := gateOK && variant == c04r1Honest
-	vs.Assert("accepted-iff-spec", (err == nil) == want)
+	if variant == c04r1Honest {
+		vs.Assert("accepted-iff-spec", (err == nil) == want)
+	} else {
+		// (own label: deciding these needs the collision-freeness assumption; a counterexample here is never
+		// mixed up with one for a well-formed message)
+		vs.Assert("malformed-message-rejected", err != nil)
+	}
 	c04AssertUnchanged(e, "bystander", 2, pre2)
 	post := c04Snap(e, gid, n)
 	if err != nil {
